@@ -65,6 +65,12 @@ func (m *Machine) initIntrinsics() {
 			}
 			return m.st.BV(64, uint64(v))
 		},
+		vfPkg + "Param": func(m *Machine, fr *frame, a []value) value {
+			if v, ok := m.Params[strArg(a[0])]; ok {
+				return m.st.BV(64, uint64(int64(v)))
+			}
+			return a[1]
+		},
 		vfPkg + "Known": func(m *Machine, fr *frame, a []value) value {
 			id := strArg(a[0])
 			if m.known == nil {
